@@ -107,6 +107,7 @@ fn main() {
             let mut start = 0u64;
             let mut careful = false;
             let mut limit = None;
+            let mut per_stream = None;
             let mut input_file = None;
             let mut i = 3;
             while i < args.len() {
@@ -125,6 +126,7 @@ fn main() {
                     "--out" => out = val(),
                     "--start" => start = val().parse().unwrap_or(0),
                     "--limit" => limit = val().parse().ok(),
+                    "--per-stream" => per_stream = val().parse().ok(),
                     "--careful" => careful = true,
                     "--input-file" => input_file = Some(val()),
                     _ => {
@@ -152,6 +154,7 @@ fn main() {
                             start,
                             careful,
                             limit,
+                            per_stream,
                         };
                         match worker::run_property(prop.as_ref(), &ra) {
                             Ok(()) => 0,
